@@ -33,12 +33,23 @@ pub fn run_a(s: &mut Src, ctx: &mut Ctx) -> Verdict {
         }
     }
     let caller_frame = s.chance(1, 4);
+    // and after that: one case in four has rules that are switched off (present in the knowledge base, `enabled = false`)
+    if s.chance(1, 4) {
+        for r in kb.rules.iter_mut() {
+            if s.chance(1, 3) {
+                r.disabled = true;
+            }
+        }
+    }
     if probe_only() {
         return Verdict::Pass;
     }
     ctx.describe(|| format!("{}{}", describe(&kb, &st, &goal, &cfg), if caller_frame { "\n  the caller has an undo frame open around the query, holding Caller.note = 7" } else { "" }));
     if kb.rules.iter().any(|r| r.fails_at.is_some()) {
         ctx.label("rule-with-action-that-fails-at-run-time");
+    }
+    if kb.rules.iter().any(|r| r.disabled) {
+        ctx.label("knowledge-base-holds-a-disabled-rule");
     }
     if caller_frame {
         ctx.label("caller-has-undo-frame-open");
